@@ -34,7 +34,7 @@ def gates(tier):
         "min_decided": {a: 2000 * k for a in APIS} | {"constants": 500 * k, "rename/renumber": 500 * k, "operand purity": 500 * k},
         "shapes": {c: 5 * k for c in ["eps_arc", "multi_initial", "multi_final", "initial_and_final", "depth:3", "sr:Q",
                                       "sr:Boolean", "sr:MaxTimes", "sr:Real", "sr:Float", "op:star", "op:plus", "op:*", "op:+",
-                                      "op:reverse", "const:from_strings", "const:lift", "const:zero", "const:one", "from_strings:prefix-member"]},
+                                      "op:reverse", "const:from_strings", "const:lift", "const:zero", "const:one", "from_strings:prefix-member", "scale:big-automaton"]},
         "min_hashseeds": 2,
     }
 
@@ -84,9 +84,16 @@ def gen_case(rng, spec):
     nops = rng.randint(1, 3)
     ops = []
     for _ in range(nops):
-        m = GA.gen_wfsa(rng, max_states=4, alphabet=["a", "b"], max_arcs=6)
-        # small initial weights keep the total weight <= 1/4 so that closures converge
-        m["start"] = [[i, Fr(1, 16)] for i, _ in m["start"]]
+        if rng.random() < 0.05:
+            # scale: an operand with 8-14 states (the operations rename / renumber / offset states), 3+ initial and final states
+            m = GA.gen_big_wfsa(rng, alphabet=["a", "b"])
+            m.pop("big")
+            m["scale"] = True
+            m["start"] = [[i, Fr(1, 32)] for i, _ in m["start"]]
+        else:
+            m = GA.gen_wfsa(rng, max_states=4, alphabet=["a", "b"], max_arcs=6)
+            # small initial weights keep the total weight <= 1/4 so that closures converge
+            m["start"] = [[i, Fr(1, 16)] for i, _ in m["start"]]
         ops.append(m)
     expr, _ = gen_expr(rng, rng.randint(1, 3), nops)
     maxlen = 3 if spec.get("tier") == "quick" else 4
@@ -111,6 +118,8 @@ def run_case(case, ctx):
     classes = set()
     for m in case["operands"]:
         classes |= set(GA.classify_wfsa(m))
+        if m.get("scale"):
+            classes.add("scale:big-automaton")
     fp = codec.fingerprint(case)
     ex = codec.dumps(case["expr"])
     nontriv = any(t in ex for t in ('"*"', '"star"', '"plus"')) and bool({"eps_arc", "multi_initial", "multi_final"} & classes)
